@@ -50,6 +50,7 @@ type sqlEngine struct {
 	log     []sqlLogEntry
 	stmtNo  int // statements seen in the current operation
 	failAt  int // fail the statement with this number (-1: none)
+	rowsBad bool // the next query is accepted but its result set fails at the first Next (a connection lost while streaming)
 	nextTx  int
 	problem string
 	// the statement text (canonical tokens) and bound arguments of the last List-shaped select (the one with
@@ -185,11 +186,15 @@ type sqlRows struct {
 	cols []string
 	rows []sqlRow
 	i    int
+	bad  bool
 }
 
 func (r *sqlRows) Columns() []string { return r.cols }
 func (r *sqlRows) Close() error      { return nil }
 func (r *sqlRows) Next(dest []driver.Value) error {
+	if r.bad {
+		return errSQLInjected
+	}
 	if r.i >= len(r.rows) {
 		return io.EOF
 	}
@@ -577,7 +582,9 @@ func (e *sqlEngine) query(c *sqlConn, q string, args []driver.Value) (driver.Row
 		}
 		res[i] = cp
 	}
-	return &sqlRows{cols: cols, rows: res}, nil
+	bad := e.rowsBad
+	e.rowsBad = false
+	return &sqlRows{cols: cols, rows: res, bad: bad}, nil
 }
 
 // canonStmt renders a select's condition, tail and arguments as tokens: ( ) and or eq:<field> nn:<field>, then
